@@ -88,7 +88,7 @@ struct Interp
       {
          MessageRef m = GetMessageFromPool(ROUTED_WHAT);
          (void) m()->AddInt32("seq", (int32) ToI(A(1))); (void) m()->AddInt32("from", c ? c->idx : -1);
-         if (A(2) == "1") (void) m()->AddString(PR_NAME_SESSION, "999999");   // a forged sender identity: the server must overwrite it
+         (void) m()->AddString(PR_NAME_SESSION, (A(2) == "1") ? "999999" : "0");   // the sender-identity field, forged or merely guessed: the server must overwrite it with the true id
          bool anyFilt = false; std::vector<std::pair<std::string, Filt> > pf;
          for (size_t i=3; i<n; i++) {std::string pat; Filt f; SplitPatFilt(A(i), pat, f); pf.push_back(std::make_pair(pat, f)); if (!f.IsNone()) anyFilt = true;}
          for (auto & x : pf) (void) m()->AddString(PR_NAME_KEYS, x.first.c_str());
